@@ -941,7 +941,7 @@ func (fr *Frame) instr(b *ssa.BasicBlock, in ssa.Instruction, st *State, g strin
 		fr.def(x, t)
 		return st
 	case *ssa.ChangeType:
-		fr.def(x, fr.val(x.X))
+		fr.def(x, vc.retype(fr.val(x.X), x.X.Type(), x.Type()))
 		return st
 	case *ssa.Convert:
 		return fr.convert(st, g, x)
@@ -1268,6 +1268,10 @@ func (fr *Frame) convert(st *State, g string, x *ssa.Convert) *State {
 			fr.defFresh(x, st)
 		}
 	default:
+		if _, ok := from.Underlying().(*types.Struct); ok {
+			fr.def(x, vc.retype(fr.val(x.X), from, to))
+			return st
+		}
 		if _, ok := to.Underlying().(*types.Pointer); ok {
 			fr.def(x, fr.val(x.X)) // unsafe.Pointer conversions
 			return st
@@ -1619,4 +1623,20 @@ func (fr *Frame) inLoop(block int) bool {
 		}
 	}
 	return false
+}
+
+// retype converts a value between types with identical underlying types but
+// different names (struct conversions get a different datatype).
+func (vc *VC) retype(term string, from, to types.Type) string {
+	fs, ok1 := from.Underlying().(*types.Struct)
+	ts, ok2 := to.Underlying().(*types.Struct)
+	if !ok1 || !ok2 || vc.sortOf(from) == vc.sortOf(to) {
+		return term
+	}
+	var vals []string
+	for i := 0; i < fs.NumFields() && i < ts.NumFields(); i++ {
+		fv := fmt.Sprintf("(%s %s)", vc.fieldAcc(from, i), term)
+		vals = append(vals, vc.retype(fv, fs.Field(i).Type(), ts.Field(i).Type()))
+	}
+	return vc.structMake(to, vals)
 }
